@@ -1,0 +1,27 @@
+//go:build verif
+
+package common
+
+import "sync/atomic"
+
+var verifYieldHook atomic.Pointer[func(string)]
+
+// SetVerifYield installs f as the callback run at every verifYield point
+// (nil removes it). Only present in builds with the "verif" tag; used by
+// external schedule-perturbation harnesses.
+func SetVerifYield(f func(point string)) {
+	if f == nil {
+		verifYieldHook.Store(nil)
+		return
+	}
+	verifYieldHook.Store(&f)
+}
+
+// VerifYield lets the other packages of this module share the callback.
+func VerifYield(point string) { verifYield(point) }
+
+func verifYield(point string) {
+	if f := verifYieldHook.Load(); f != nil {
+		(*f)(point)
+	}
+}
